@@ -8,6 +8,8 @@ import VlsModel.Gen.FnSimpleCommit
 import VlsModel.Gen.FnSimpleSetup
 import VlsModel.Gen.FnOnchainPass
 import VlsModel.Gen.FnPolicyMod
+import VlsModel.Gen.FnOnchainFactory
+import VlsModel.Gen.FnDefaultPolicy
 import VlsModel.Gen.Chain
 import VlsModel.Lemmas.FnGen
 /-
@@ -1416,13 +1418,91 @@ theorem C05_fn_onchain_factory_new :
 theorem C05_fn_onchain_factory_new_with_simple_factory (f : Gen.FnPolicyMod.SimpleValidatorFactory) :
     Gen.FnPolicyMod.OnchainValidatorFactory.new_with_simple_factory f = { inner_factory := f } := rfl
 
-theorem C05_fn_enforce_balance (sp : Gen.FnPolicyMod.SimplePolicy) :
-    Gen.FnPolicyMod.SimpleValidator.enforce_balance { policy := sp } = sp.enforce_balance := rfl
+theorem C05_fn_enforce_balance {PK CI : Type} (v : Gen.FnPolicyMod.SimpleValidator PK CI) :
+    v.enforce_balance = v.policy.enforce_balance := rfl
 
 /-- `minimum_initial_balance`: the holder's msat value rounded down to whole satoshi; never fails -/
-theorem C05_fn_minimum_initial_balance (v : Gen.FnPolicyMod.SimpleValidator) (x : Nat) :
+theorem C05_fn_minimum_initial_balance {PK CI : Type} (v : Gen.FnPolicyMod.SimpleValidator PK CI) (x : Nat) :
     v.minimum_initial_balance x = .ok (x / 1000) := by
   simp [Gen.FnPolicyMod.SimpleValidator.minimum_initial_balance, Rs.udiv, bind, Except.bind, pure, Except.pure]
+
+/-! ### `make_validator` / `policy` of both factories: which policy and which filter a validator gets -/
+
+/-- `SimpleValidatorFactory::make_validator`: the configured policy if there is one, the network default (external:
+    `make_default_simple_policy`, whose literals `x_policy.py` extracts) only otherwise -/
+theorem C05_fn_simple_make_validator {N PK CI : Type} (dflt : N → Gen.FnPolicyMod.SimplePolicy)
+    (f : Gen.FnPolicyMod.SimpleValidatorFactory) (net : N) (id : PK) (ch : Option CI) :
+    Gen.FnPolicyMod.SimpleValidatorFactory.make_validator dflt f net id ch
+      = { policy := f.policy.getD (dflt net), node_id := id, channel_id := ch } := rfl
+
+theorem C05_fn_simple_factory_policy {N : Type} (dflt : N → Gen.FnPolicyMod.SimplePolicy)
+    (f : Gen.FnPolicyMod.SimpleValidatorFactory) (net : N) :
+    Gen.FnPolicyMod.SimpleValidatorFactory.policy_fn dflt f net = f.policy.getD (dflt net) := rfl
+
+/-- a policy handed to `new_with_policy` is the policy of every validator the factory makes, on every network -/
+theorem C05_fn_factory_configured_policy_wins {N PK CI : Type} (dflt : N → Gen.FnPolicyMod.SimplePolicy)
+    (sp : Gen.FnPolicyMod.SimplePolicy) (net : N) (id : PK) (ch : Option CI) :
+    (Gen.FnPolicyMod.SimpleValidatorFactory.make_validator dflt (.new_with_policy sp) net id ch).policy = sp := rfl
+
+/-- `SimpleValidatorFactory::new()` yields the network default -/
+theorem C05_fn_factory_default_policy {N PK CI : Type} (dflt : N → Gen.FnPolicyMod.SimplePolicy) (net : N) (id : PK)
+    (ch : Option CI) :
+    (Gen.FnPolicyMod.SimpleValidatorFactory.make_validator dflt .new net id ch).policy = dflt net := rfl
+
+/-- `Validator::policy()` of the two validators: their own policy object -/
+theorem C05_fn_simple_validator_policy {PK CI : Type} (v : Gen.FnPolicyMod.SimpleValidator PK CI) :
+    Gen.FnPolicyMod.SimpleValidator.policy_fn v = v.policy := rfl
+
+theorem C05_fn_onchain_validator_policy (v : Gen.FnPolicyMod.OnchainValidator) :
+    Gen.FnPolicyMod.OnchainValidator.policy_fn v = v.policy := rfl
+
+/-- **the whole expansion of `policy_err!(self, tag, ..)`** = `self.policy().policy_error(tag, msg)?`, for a validator
+    made by a factory configured with a policy whose filter has the rules `rs`: it is `Rs.policyErr` with the model's
+    `filterEval rs` — the reading every other generated tie of C05/C07 uses (`filt p`, `rs = p.filter`) -/
+theorem C05_fn_policy_err_expansion {N PK CI : Type} (dflt : N → Gen.FnPolicyMod.SimplePolicy) (eb : Bool)
+    (rs : List Gen.Policy.Rule) (net : N) (id : PK) (ch : Option CI) (tag msg : String) :
+    (Gen.FnPolicyMod.SimpleValidator.policy_fn
+        (Gen.FnPolicyMod.SimpleValidatorFactory.make_validator dflt
+          (.new_with_policy { enforce_balance := eb, filter := toPFM rs }) net id ch)).policy_error tag msg
+      = Rs.policyErr (filtOf rs) tag :=
+  C05_fn_policy_error_with_filter rs tag msg
+
+/-- `OnchainValidatorFactory::make_validator`: the inner validator is what the inner factory makes for the same
+    arguments; the gate's policy carries **the inner policy's filter** (no rule at all if the inner factory has no
+    configured policy) and the generated minimum depth -/
+theorem C05_fn_onchain_make_validator {N PK CI V : Type}
+    (mk : Gen.FnOnchainFactory.SimpleValidatorFactory → N → PK → Option CI → V)
+    (f : Gen.FnOnchainFactory.OnchainValidatorFactory) (net : N) (id : PK) (ch : Option CI) :
+    Gen.FnOnchainFactory.OnchainValidatorFactory.make_validator mk f net id ch
+      = { inner := mk f.inner_factory net id ch,
+          policy := { filter := (f.inner_factory.policy.map (·.filter)).getD { rules := [] },
+                      min_funding_depth := Gen.Policy.minFundingDepth } } := rfl
+
+theorem C05_fn_onchain_factory_policy {N P : Type} (ext : Gen.FnOnchainFactory.SimpleValidatorFactory → N → P)
+    (f : Gen.FnOnchainFactory.OnchainValidatorFactory) (net : N) :
+    Gen.FnOnchainFactory.OnchainValidatorFactory.policy ext f net = ext f.inner_factory net := rfl
+
+/-- with a configured inner policy the gate's tag is filtered by exactly that policy's filter -/
+theorem C05_fn_onchain_gate_filter_is_inner {N PK CI V : Type}
+    (mk : Gen.FnOnchainFactory.SimpleValidatorFactory → N → PK → Option CI → V)
+    (sp : Gen.FnOnchainFactory.SimplePolicy) (net : N) (id : PK) (ch : Option CI) :
+    (Gen.FnOnchainFactory.OnchainValidatorFactory.make_validator mk ⟨⟨some sp⟩⟩ net id ch).policy.filter = sp.filter := rfl
+
+/-- **`make_default_simple_policy` (translated, both branches) carries the numbers `x_policy.py` extracts** as
+    `Gen.Policy.defaultMainnet` / `defaultTestnet` — the policies for which `C05_default_filter_strict`,
+    `C05_default_nonpermissive` discharge the filter hypothesis of `C05_main`: mainnet gets the first literal, **every**
+    other network (testnet, signet, regtest) the second; no rule in the filter, no dev flags.  Two independent
+    extractors (text pins and the function-body translator) have to agree here. -/
+theorem C05_fn_make_default_simple_policy {V : Type} (unl fee : V) (net : Gen.FnDefaultPolicy.Network) :
+    let sp := Gen.FnDefaultPolicy.make_default_simple_policy unl fee net
+    let raw := if net = .Bitcoin then Gen.Policy.defaultMainnet else Gen.Policy.defaultTestnet
+    sp.min_delay = raw.minDelay ∧ sp.max_delay = raw.maxDelay ∧ sp.max_channel_size_sat = raw.maxChannelSize
+      ∧ sp.epsilon_sat = raw.epsilon ∧ sp.max_htlcs = raw.maxHtlcs ∧ sp.max_htlc_value_sat = raw.maxHtlcValue
+      ∧ sp.use_chain_state = raw.useChainState ∧ sp.min_feerate_per_kw = raw.minFeerate
+      ∧ sp.max_feerate_per_kw = raw.maxFeerate ∧ sp.max_routing_fee_msat = raw.maxRoutingFeeMsat
+      ∧ sp.enforce_balance = raw.enforceBalance ∧ sp.filter.rules = [] ∧ raw.filter = [] ∧ sp.dev_flags = none
+      ∧ sp.max_channels = Gen.Chain.maxChannelsDefault := by
+  cases net <;> exact ⟨rfl, rfl, rfl, rfl, rfl, rfl, rfl, rfl, rfl, rfl, rfl, rfl, rfl, rfl, rfl⟩
 
 /-- trait default `Policy::max_channels` = the constant `x_chain.py` extracts -/
 theorem C05_fn_policy_max_channels {S : Type} (s : S) :
